@@ -102,8 +102,25 @@ func c13Run(c *core.Case, o *core.Outcome) {
 		changed := false
 		var sumR, sumY float64
 		desc := fmt.Sprintf("jitter=%g profile=%s len=%d const=%d", j, pname, length, konst)
+		// the tick times are whatever the caller's clock says: distinct, frozen, repeated or going backwards
+		tsPat := r.IntN(5)
+		tsName := []string{"distinct", "frozen", "pairs", "backwards", "zero"}[tsPat]
+		desc += " timestamps=" + tsName
+		tsAt := func(i int) time.Time {
+			switch tsPat {
+			case 1:
+				return time.Unix(1700000000, 0)
+			case 2:
+				return time.Unix(int64(i/2), 0)
+			case 3:
+				return time.Unix(int64(1_000_000-i/3), 0)
+			case 4:
+				return time.Time{}
+			}
+			return time.Unix(int64(i), 0)
+		}
 		for i := 0; i < length; i++ {
-			y := fn(time.Unix(int64(i), 0))
+			y := fn(tsAt(i))
 			rk := float64(cur)
 			if k != i+1 {
 				o.Violate("jitter-calls:"+desc, "underlying rate evaluated %d times after %d ticks (%s)", k, i+1, desc)
@@ -173,7 +190,7 @@ func c13Run(c *core.Case, o *core.Outcome) {
 			if length > 5000 {
 				lc = "long"
 			}
-			o.Sig("j=%s:profile=%s:len=%s", jc, pname, lc)
+			o.Sig("j=%s:profile=%s:len=%s:ts=%s", jc, pname, lc, tsName)
 		} else if j == 0 {
 			o.Sig("identity:profile=%s", pname)
 		}
